@@ -46,6 +46,10 @@ type Profile struct {
 	IntArithOnOutputs bool
 	// OutputsWaitAll makes every output wait (wait-optional) for all steps to be over.
 	OutputsWaitAll bool
+	// ObserveStageOutputs makes (half of the time) every output additionally carry, wait-optionally,
+	// the terminal stage outputs of every step (foreach failed.error / outputs.success, plugin
+	// crashed.error / deploy_failed.error) so that their data passes the output schema (C08).
+	ObserveStageOutputs bool
 	// TagHeavy places trees of tags in most `any` fields and outputs (C15).
 	TagHeavy bool
 	// RichInput adds generated input fields (bounds, defaults, nested objects, maps).
@@ -495,6 +499,27 @@ func GenCase(t *rapid.T, p Profile, prop string) *Case {
 			}
 		}
 	}
+	if p.ObserveStageOutputs && rapid.Bool().Draw(t, "observe-stage-outputs?") {
+		g.label("outputs-observe-all-terminal-stage-outputs")
+		for _, o := range g.prog.Outputs {
+			if o.Val.K != "map" {
+				continue
+			}
+			for _, s := range g.prog.Steps {
+				add := func(name, stage, output string) {
+					o.Val.Set(name+"_"+s.ID, &Val{K: "waitopt", Expr: &Expr{K: "out", Step: s.ID, Stage: stage, Output: output}})
+				}
+				if s.Kind == "foreach" {
+					add("ff", "failed", "error")
+					add("fs", "outputs", "success")
+				} else {
+					add("pc", "crashed", "error")
+					add("pd", "deploy_failed", "error")
+					add("ps", "outputs", "success")
+				}
+			}
+		}
+	}
 	c.Script = g.script
 	for l := range g.labels {
 		c.Labels = append(c.Labels, l)
@@ -596,6 +621,14 @@ func (g *genCtx) genTag(label string, inStep bool) *Val {
 	g.label("tag:" + kind)
 	switch kind {
 	case "waitopt", "softopt":
+		if g.p.Faults && rapid.IntRange(0, 9).Draw(t, label+".optexpr?") < 4 {
+			// a computed expression (possibly one whose evaluation fails) under the optional tag
+			typ := rapid.SampledFrom([]string{"int", "int", "string", "bool"}).Draw(t, label+".opttyp")
+			if e := g.genExpr(typ, 2, label+".optexpr"); e != nil && e.K != "in" && e.K != "lit" {
+				g.label("tag:" + kind + "-over-computed-expression")
+				return &Val{K: kind, Expr: e}
+			}
+		}
 		return &Val{K: kind, Expr: src.expr}
 	case "ordisabled":
 		// needs a plugin step output path
@@ -758,6 +791,11 @@ func (g *genCtx) genForeach(c *Case, s *Step, lbl string) {
 			[]*Val{ExprVal(&Expr{K: "in", Field: "k"}), ExprVal(&Expr{K: "in", Field: "n"})})}},
 		Outputs: []*Output{{ID: "success", Val: MapVal([]string{"r"}, []*Val{ExprVal(&Expr{K: "out", Step: "w", Stage: "outputs", Output: "success"})})}},
 	}
+	if g.p.ForeachFailures && rapid.Bool().Draw(t, lbl+".sub-error-output?") {
+		// the sub-workflow declares a second, non-success output: an item that ends in it failed
+		sub.Outputs = append(sub.Outputs, &Output{ID: "error", Val: MapVal([]string{"why"}, []*Val{ExprVal(&Expr{K: "out", Step: "w", Stage: "outputs", Output: "error", Path: []string{"msg"}})})})
+		g.label("foreach:sub-workflow-with-error-output")
+	}
 	c.Subs[s.Workflow] = sub
 	n := rapid.IntRange(0, 5).Draw(t, lbl+".items")
 	items := &Val{K: "list"}
@@ -770,7 +808,7 @@ func (g *genCtx) genForeach(c *Case, s *Step, lbl string) {
 		items.Vals = append(items.Vals, MapVal([]string{"k", "n"}, []*Val{LitVal(StrLit(key)), nv}))
 		b := vplug.Behaviour{Outcome: "success"}
 		if g.p.ForeachFailures && rapid.IntRange(0, 5).Draw(t, fmt.Sprintf("%s.item%d.fail?", lbl, i)) == 0 {
-			b.Outcome = rapid.SampledFrom([]string{"crash", "bad_output"}).Draw(t, fmt.Sprintf("%s.item%d.outcome", lbl, i))
+			b.Outcome = rapid.SampledFrom([]string{"crash", "bad_output", "error", "error", "alt"}).Draw(t, fmt.Sprintf("%s.item%d.outcome", lbl, i))
 			g.label("foreach-item:" + b.Outcome)
 		}
 		if g.p.MaxDelayMs > 0 {
